@@ -351,9 +351,20 @@ func ensureTrigger(steps []step) []step {
 	return steps
 }
 
+// truncatedAt keeps the first pos steps and ends the script with ev: the event is then the
+// only thing that can end forwarding (the rest of the environment stays silent).
+func truncatedAt(base []step, pos int, ev step) []step {
+	var out []step
+	out = append(out, base[:pos]...)
+	return append(out, ev)
+}
+
 // systematicScripts enumerates the model's environment behaviours for payloads of at
 // most maxLen single-byte writes per direction: every interleaving of the two peers'
-// operations, alone and with a cancel / reset / close inserted at every position.
+// operations, alone and with a cancel / reset / close inserted at every position - both
+// with the environment falling silent after the event (the event alone must end
+// forwarding, or - where it need not - the final cancel does) and with the other steps
+// still played afterwards.
 func systematicScripts(maxLen int) [][]step {
 	var out [][]step
 	for la := 0; la <= maxLen; la++ {
@@ -361,10 +372,15 @@ func systematicScripts(maxLen int) [][]step {
 			for _, base := range interleave(sideOps("A", la), sideOps("B", lb)) {
 				out = append(out, base)
 				for pos := 0; pos <= len(base); pos++ {
-					out = append(out, ensureTrigger(withEvent(base, pos, step{Op: "cancel"})))
+					out = append(out, ensureTrigger(truncatedAt(base, pos, step{Op: "cancel"})))
 					for _, side := range []string{"A", "B"} {
-						out = append(out, ensureTrigger(withEvent(base, pos, step{Op: "reset", Side: side})))
-						out = append(out, ensureTrigger(withEvent(base, pos, step{Op: "close", Side: side})))
+						for _, op := range []string{"reset", "close"} {
+							ev := step{Op: op, Side: side}
+							out = append(out, ensureTrigger(withEvent(base, pos, ev)))
+							if pos < len(base) {
+								out = append(out, ensureTrigger(truncatedAt(base, pos, ev)))
+							}
+						}
 					}
 				}
 			}
@@ -403,6 +419,11 @@ func randomScript(r *rand.Rand, session bool, allowOpen bool) connIn {
 			switch kind {
 			case 5:
 				steps = append(steps, step{Op: "cancel"})
+				if r.Intn(2) == 0 {
+					// the cancellation is the last thing that happens
+					sending["A"], sending["B"] = false, false
+					i = nops
+				}
 			case 6, 9:
 				s := []string{"A", "B"}[r.Intn(2)]
 				if alive[s] {
